@@ -69,7 +69,13 @@ def run(ctx):
             cb = {"what": "interval validation of naive_L_real failed", "log": out[-600:]}
     # P is the exact Pareto set of the per-design means of all observations so far
     lines, meta = [], []
-    for _ in range(15 if ctx.quick else 150):
+    import random
+    drng = random.Random(8080 + ctx.seed)
+    nrand = 15 if ctx.quick else 150
+    for run_k in range(nrand + 8):
+        directed = run_k >= nrand             # directed runs: own generator, 12 rounds, P read after rounds 1, 4, 9, 12 only
+        if directed:
+            rng_saved, rng = rng, drng
         theta = rng.choice([45, 60, 90, 120]); K = rng.randint(2, 7)
         unit = rng.choice([1.0, 1.0, 2.0 ** -34])           # the order has no absolute tolerance: tiny units must behave the same
         Y = [[rng.randint(-8, 8) / 4.0 * unit, rng.randint(-8, 8) / 4.0 * unit] for _ in range(K)]
@@ -78,6 +84,8 @@ def run(ctx):
         # P may be read at any time: after every round, or only now and then (several rounds between two reads)
         every = rng.random() < 0.4
         read_at = set(range(a.L)) if every else ({t for t in range(a.L) if rng.random() < 0.35} | {a.L - 1})
+        if directed:
+            a.L = 12; read_at = {0, 3, 8, 11}; K = max(K, 4)
         obs = []
         def ev(x, noisy=True, _Y=np.array(Y)):
             r = _Y + np.array([[rng.randint(-4, 4) / 8.0 * unit, rng.randint(-4, 4) / 8.0 * unit] for _ in range(len(_Y))])
@@ -93,6 +101,8 @@ def run(ctx):
             W = a.order.ordering_cone.W
             lines.append(f"pareto_fast {common.enc([[F(x) for x in r] for r in W])} {common.enc([[F(x) for x in r] for r in means])}")
             meta.append((P, means.tolist(), theta, t + 1, sorted(x + 1 for x in read_at if x <= t)))
+        if directed:
+            rng = rng_saved
     outp = ctx.model(lines)
     for (P, means, theta, rnd, reads), o in zip(meta, outp):
         ref = common.dec(o)
